@@ -354,12 +354,12 @@ package loader
 
 //@ func Load
 //@   nopanic[C01]
-//@?   ensures[C01] (err == nil) != (result.0 == nil)   // undischarged on the reference tree: not claimed
+//@   ensures[C01] (err == nil) != (result.0 == nil)
 
 //@ func LoadWithContext
 //@   except precondition#2, precondition#3 : undischarged on the reference tree (engine limit or missing callee contract), not claimed
 //@   nopanic[C01]
-//@?   ensures[C01] (err == nil) != (result.0 == nil)   // undischarged on the reference tree: not claimed
+//@   ensures[C01] (err == nil) != (result.0 == nil)
 
 //@ func LoadModelWithContext
 //@   except precondition#2 : undischarged on the reference tree (engine limit or missing callee contract), not claimed
@@ -418,7 +418,7 @@ package loader
 //@ func modelToProject
 //@   nopanic[C01]
 //@   requires dict != nil && opts != nil
-//@?   ensures[C01] (err == nil) != (result.0 == nil)   // undischarged on the reference tree: not claimed
+//@   ensures[C01] (err == nil) != (result.0 == nil)
 
 // C17: an imperatively requested name (explicit or COMPOSE_PROJECT_NAME) that is not in normal form is rejected;
 // otherwise the candidate from the compose files replaces the guessed name iff it is non-empty AFTER normalisation;
